@@ -371,6 +371,65 @@ theorem write_deadline_cuts_reply :
     doqStream false 2000 2300 [(0, 4096)] msg13 = 0 :: 13 :: msg13 ∧
     doqStream false 2000 0 [(0, 4), (2500, 4096)] msg13 = 0 :: 13 :: msg13 := by decide
 
+/-! ### The read loop of a pipelined upstream connection: a short frame between valid frames -/
+/-- **C16 (a short frame between valid frames).** A reader that decodes frame after frame and stops at the first
+failed read (the read loop of a pipelined upstream connection, `TraditionalDnsConn.readLoop`) hands out exactly the
+frames written before a frame announcing `l ≤ 12` bytes and then fails with `tooSmall`, whatever follows the short
+header (its body, further valid frames) and however the stream is chunked: nothing behind the short header is ever
+cut into a message. -/
+theorem frames_then_small (ms : List Bytes) (hr : ∀ m ∈ ms, 13 ≤ m.length ∧ m.length ≤ 65535)
+    (l : Nat) (hl : l ≤ 12) (rest : Bytes) :
+    ∀ (cs : Stream), cs.flatten = (ms.map (fun m => hdr m.length ++ m)).flatten ++ (hdr l ++ rest) →
+      ∀ fuel, ms.length < fuel → decodeAll fuel cs = (ms, some .tooSmall) := by
+  induction ms with
+  | nil =>
+    intro cs hcs fuel hf
+    cases fuel with
+    | zero => omega
+    | succ f =>
+      simp only [List.map_nil, List.flatten_nil, List.nil_append] at hcs
+      have hne : cs.flatten.isEmpty = false := by rw [hcs]; simp [hdr]
+      have hs := ((small_or_short_errors cs).2 (hdr l) rest hcs (by simp [hdr])).1
+        (by rw [announced_hdr l (by omega)]; exact hl)
+      rw [Refine.C16.readRawMsgFromTCP_eq] at hs
+      unfold decodeAll
+      simp only [hne, hs]
+      simp
+  | cons m tl ih =>
+    intro cs hcs fuel hf
+    cases fuel with
+    | zero => omega
+    | succ f =>
+      have hm := hr m (by simp)
+      simp only [List.map_cons, List.flatten_cons, List.append_assoc] at hcs
+      obtain ⟨cs', h1, h2⟩ := readRaw_frame m _ cs hm.1 hm.2 hcs
+      have hne : cs.flatten.isEmpty = false := by
+        rw [hcs]; simp [hdr]
+      unfold decodeAll
+      simp only [hne, h1]
+      rw [ih (fun x hx => hr x (by simp [hx])) cs' (by rw [h2]) f (by simp at hf; omega)]
+      simp
+
+/-- A read loop that treats `tooSmall` like a runt datagram and reads on behind the two header bytes (the body of
+the short frame is still on the stream). -/
+def decodeSkipping : Nat → Stream → List Bytes
+  | 0, _ => []
+  | fuel + 1, c =>
+    match readFull c 2 with
+    | .error _ => []
+    | .ok (h, c') =>
+      if announced h ≤ 12 then decodeSkipping fuel c' else
+      match readFull c' (announced h) with
+      | .error _ => []
+      | .ok (m, c'') => m :: decodeSkipping fuel c''
+
+/-- Witness: such a loop cuts a "message" out of the body of the short frame and the header of the next frame - bytes
+the peer never framed as one message (here the only message sent is `msg13`). -/
+theorem skipping_small_is_wrong :
+    decodeSkipping 4 [[0, 6, 0, 13, 0, 0, 0x81, 0x80] ++ (0 :: 13 :: msg13)]
+      = [[0, 0, 0x81, 0x80, 0, 13, 1, 2, 3, 4, 5, 6, 7]] ∧
+    decodeAll 4 [[0, 6, 0, 13, 0, 0, 0x81, 0x80] ++ (0 :: 13 :: msg13)] = ([], some .tooSmall) := by decide
+
 /-! ### Guard over the regenerated facts -/
 theorem facts_guard :
     Gen.Facts.c16ReadErrEndsConn = some true ∧ Gen.Facts.c16DoqStreamDeadlineReadOnly = some true := by decide
